@@ -349,6 +349,8 @@ example : (run foldSimp exOracle {} exEnv
     With `cfg.sha3` on: SHA3 of a concrete-size memory range — the digest literal for concrete data, the application
     `f_sha3_<bits>(data)` otherwise, with the path conditions `sha3_data` appends; `hsha`: `I` interprets `f_sha3_<8n>`
     as the reference's hash of the `n` bytes and the model's hash of concrete data is the reference's.
+    `hnc`: CREATE is not followed (`Cfg.create` off: it ends the path stuck); the model of CREATE behind that switch
+    is checked by the differential harness only (see Model.SevmCalls; `crMain` below is an instance).
     Symbolic call / EXTCODE* targets, precompiles (as call targets) and cheat-code addresses end the path stuck: an
     error report, about which nothing is claimed. Known finding kept out by the tag `staticValue`: a value-bearing
     CALL in a static frame succeeds in the code (`TODO: revert if context is static`); the model stops there. Tagged ends (no claim):
@@ -576,6 +578,36 @@ example :
     (Evm.exec { exPC with keccak := Keccak.keccak256 } 40 { exWC with code := [(0x1000, shaCode)] }
         { exF0 with code := shaCode }).map (fun r => Evm.bytesToNat r.2.data) =
       some (Keccak.keccak256 (List.replicate 31 0 ++ [0x2a])) := by
+  decide +kernel
+
+/-- CREATE (`cfg.create` on; model and differential harness only — the theorems above assume it off): the runtime
+    code `mstore(0, caller); mstore(32, address); return(0, 64)` -/
+def crRuntime : List Nat := [0x33, 0x60, 0, 0x52, 0x30, 0x60, 0x20, 0x52, 0x60, 0x40, 0x60, 0, 0xf3]
+/-- its constructor: `mstore(0, <runtime>); return(19, 13)` -/
+def crInit : List Nat := [0x6c] ++ crRuntime ++ [0x60, 0, 0x52, 0x60, 13, 0x60, 19, 0xf3]
+/-- the creator: the init code into memory, `a = create(0, 0, 22)`, `mstore(0x40, a)`, `call(a)` with the return area
+    `[0, 0x40)`, `return(0, 0x60)` -/
+def crMain : List Nat :=
+  [0x7f] ++ crInit ++ List.replicate 10 0 ++ [0x60, 0, 0x52,
+   0x60, 22, 0x60, 0, 0x60, 0, 0xf0, 0x80, 0x60, 0x40, 0x52,
+   0x60, 0x40, 0x60, 0, 0x60, 0, 0x60, 0, 0x60, 0, 0x85, 0x61, 0xff, 0xff, 0xf1, 0x50, 0x50,
+   0x60, 0x60, 0x60, 0, 0xf3]
+
+/-- model and reference agree: the new account `0xaaaa0002` holds the runtime code, which sees the creator as its caller -/
+example :
+    (runC foldSimp exOracle { create := true } exEnv [(0x1000, crMain)] 0x1000 200).ends.map
+        (fun ce => (ce.e.out, ce.e.tag, (ce.e.data.map (·.eval exI)))) =
+      [(.halt (.success []), .normal,
+        Evm.natToBytes 32 0x1000 ++ Evm.natToBytes 32 0xaaaa0002 ++ Evm.natToBytes 32 0xaaaa0002)] ∧
+    (runC foldSimp exOracle { create := true } exEnv [(0x1000, crMain)] 0x1000 200).ends.map
+        (fun ce => codeOf ce.e.st.created 0xaaaa0002) = [some crRuntime] := by
+  decide +kernel
+
+example :
+    (Evm.exec exPC 60 { exWC with code := [(0x1000, crMain)] } { exF0 with code := crMain }).map (fun r => r.2) =
+      some (.success (Evm.natToBytes 32 0x1000 ++ Evm.natToBytes 32 0xaaaa0002 ++ Evm.natToBytes 32 0xaaaa0002)) ∧
+    (Evm.exec exPC 60 { exWC with code := [(0x1000, crMain)] } { exF0 with code := crMain }).map
+        (fun r => r.1.codeOf 0xaaaa0002) = some (some crRuntime) := by
   decide +kernel
 
 /-- a reverting callee: `sstore(0, 7); mstore(0, 0x2a); revert(0, 32)` -/
